@@ -359,6 +359,19 @@ def check_commute(case):
     if not f:
         # the statement itself, library against library
         f.expect(a == b, "commute/path/public-ne-private", f"{a!r} vs {b!r}")
+    # the other two pairings of path head and key kind: no private key can come out of an xpub, and M/... of an xprv
+    # is at most the neutered key; a refusal is fine for both
+    if suffix:
+        c = attempt(whd.derive_from_path, ref.fmt_path("m", suffix), xpub)
+        f.expect(raised(c) or _diff(c, viapub.string()) is None, "commute/path/private-path-from-xpub-returns-other-key", f"{c!r}")
+        c = attempt(whd.derive_from_path, ref.fmt_path("M", suffix), xprv)
+        f.expect(raised(c) or _diff(c, viapub.string()) is None, "commute/path/public-path-from-xprv-returns-other-key", f"{c!r}")
+        cls.append("nt:head-kind-mismatch")
+        # paths that name no child: an index that does not fit four bytes, a hardened index at or above 2^31, junk
+        tail = ref.fmt_path("m", suffix)[1:]
+        for bad in (f"m{tail}/4294967296", f"m{tail}/2147483648'", f"m{tail}/-1", f"m{tail}/", f"m{tail}/x", f"x{tail}", f"m{tail}/1.5"):
+            c = attempt(whd.derive_from_path, bad, xprv)
+            f.expect(raised(c), "commute/path/malformed-path-accepted", f"path {bad!r} returned {c!r}")
     return cls, f
 
 
